@@ -53,6 +53,8 @@ class Sym:
         self.consts = consts or {}       # def path -> int value (named constants are inlined)
         self.events = []                 # side effects: ('store', target_expr, value_expr)
         self.unknown = []
+        self.inline = None               # optional {def path: Fn}: crate-local helpers evaluated in place of `call:name(..)`
+        self.depth = 0
 
     def path(self, n):
         r = n["res"]
@@ -104,6 +106,18 @@ class Sym:
             name = "::".join(nm[-2:]) if len(nm) > 1 and nm[-2][:1].isupper() else nm[-1]
             if name.endswith("from") and len(n["args"]) == 1:
                 return self.ev(n["args"][0])
+            callee = self.inline.get(n.get("fn")) if self.inline and n.get("fn") else None
+            if callee is not None and callee.hir and self.depth < 3:
+                sub = Sym(self.consts)
+                sub.inline, sub.depth = self.inline, self.depth + 1
+                args = [self.ev(a) for a in n["args"]]
+                names = [b for p in callee.hir["params"] for b in hirq.pat_binds(p)]
+                if len(names) == len(args):
+                    sub.env = dict(zip(names, args))
+                    body = callee.hir["body"]
+                    r = sub.block(body) if body.get("k") == "block" else sub.ev(body)
+                    if r is not None and not any(e[0] in ("ret",) for e in sub.events):
+                        return r
             return op("call:" + name, *[self.ev(a) for a in n["args"]])
         if k == "block":
             return self.block(n)
@@ -213,9 +227,10 @@ class Sym:
         return None
 
 
-def eval_fn(fn, consts=None):
+def eval_fn(fn, consts=None, inline=None):
     """evaluate a whole function body; returns Sym (env = final bindings, loop_env = after one loop iteration)"""
     s = Sym(consts)
+    s.inline = inline
     for p in fn.hir["params"]:
         for b in hirq.pat_binds(p):
             s.env[b] = var(b)
